@@ -316,3 +316,41 @@ func checkDataShape(p *Prog, r *Report, f *ssa.Function) {
 	})
 	r.floor("data member stores", n, 3)
 }
+
+// checkRelDataKey: in MarshalResource every lookup in the relationship-data
+// request is keyed by the type name of the resource being marshaled.
+func checkRelDataKey(p *Prog, r *Report, prefix string) {
+	f := p.Fn("MarshalResource")
+	if f == nil {
+		r.fail("anchor MarshalResource not found")
+		return
+	}
+	relDataP := f.Params[3]
+	n := 0
+	eachInstr(f, func(ins ssa.Instruction) {
+		lk, ok := ins.(*ssa.Lookup)
+		if !ok || lk.X != ssa.Value(relDataP) {
+			return
+		}
+		n++
+		good := false
+		if base, fl, ok := fieldLoad(lk.Index); ok && fl == "Name" {
+			isGT := func(x ssa.Value) bool {
+				c, _ := callOf(x)
+				return c != nil && c.Common().IsInvoke() && c.Common().Method.Name() == "GetType" && c.Common().Value == ssa.Value(f.Params[0])
+			}
+			if isGT(base) {
+				good = true
+			}
+			if al, ok := base.(*ssa.Alloc); ok {
+				for _, ref := range referrers(al) {
+					if st, ok := ref.(*ssa.Store); ok && isGT(st.Val) {
+						good = true
+					}
+				}
+			}
+		}
+		r.decide(good, prefix+".reldata-key", "MarshalResource:"+p.describe(lk), p.pos(lk.Pos()), "looked up under the resource's own type name", "the relationship-data request is looked up under something other than the type name of the resource being marshaled: relationship data selected for this type is not emitted (e.g. for relationships whose FromType is empty)")
+	})
+	r.floor("relationship-data lookups in MarshalResource", n, 2)
+}
